@@ -219,7 +219,7 @@ func c06Calls(repo, out string) error {
 	})
 
 	// writes to MsgMetadata.Quarantine (or to the whole shared metadata object) in the package
-	var sites, values []string
+	var sites, values, mapUpd []string
 	dir := filepath.Dir(pp)
 	ents, err := os.ReadDir(dir)
 	if err != nil {
@@ -274,6 +274,31 @@ func c06Calls(repo, out string) error {
 				}
 				return true
 			})
+			// every update of the key set of rcptModifiersState: the record of which destination
+			// blocks take part in the body stage (Body / BodyNonAtomic range over it)
+			ast.Inspect(fd.Body, func(x ast.Node) bool {
+				switch v := x.(type) {
+				case *ast.AssignStmt:
+					for _, l := range v.Lhs {
+						switch lv := l.(type) {
+						case *ast.IndexExpr:
+							if strings.HasSuffix(c06Str(fset, lv.X), "rcptModifiersState") {
+								mapUpd = append(mapUpd, fd.Name.Name+": set "+c06Str(fset, l))
+							}
+						case *ast.SelectorExpr:
+							if lv.Sel.Name == "rcptModifiersState" {
+								mapUpd = append(mapUpd, fd.Name.Name+": replace "+c06Str(fset, l))
+							}
+						}
+					}
+				case *ast.CallExpr:
+					if id, ok := v.Fun.(*ast.Ident); ok && (id.Name == "delete" || id.Name == "clear") && len(v.Args) > 0 &&
+						strings.HasSuffix(c06Str(fset, v.Args[0]), "rcptModifiersState") {
+						mapUpd = append(mapUpd, fd.Name.Name+": "+id.Name+" "+c06Str(fset, v.Args[0]))
+					}
+				}
+				return true
+			})
 		}
 	}
 
@@ -308,6 +333,7 @@ func c06Calls(repo, out string) error {
 	strs("replayGroups", replay)
 	strs("flagWriteSites", sites)
 	strs("flagWriteValues", values)
+	strs("blockMapUpdates", mapUpd)
 	b.WriteString("end MaddyVerif.Generated.C06Calls\n")
 	content := b.String()
 	if old, err := os.ReadFile(out); err == nil && string(old) == content {
